@@ -1098,5 +1098,185 @@ Section Sent.
     destruct (opt_read (sn_truth s) _) as [ot|] eqn:Hot; [|discriminate].
     injection Hv as <-. now apply parse_main.
   Qed.
-(*MARK*)
+
+  (* ---------------- C09: the spacing annotations do not matter ---------------- *)
+  Lemma omap_map_ext {A B} (f : A -> option B) (g : A -> A) l :
+    Forall (fun x => f (g x) = f x) l -> omap f (map g l) = omap f l.
+  Proof. induction 1 as [|x l Hx _ IH]; cbn [map omap]; [reflexivity | now rewrite Hx, IH]. Qed.
+
+  Lemma odesugar_erase_t t : odesugar (erase_t t) = odesugar t.
+  Proof.
+    induction t as [arm name|ext sp0 gaps items sp1 IH|arm sp0 gaps items sp1 IH|arm sp0 sp1 sp2 sp3 s p IHs IHp] using sterm_ind';
+      cbn [erase_t odesugar].
+    - reflexivity.
+    - now rewrite (omap_map_ext odesugar erase_t items IH).
+    - now rewrite (omap_map_ext odesugar erase_t items IH).
+    - now rewrite IHs, IHp.
+  Qed.
+
+  Lemma odesugar_narsese_erase s : odesugar_narsese F fread in01 (erase s) = odesugar_narsese F fread in01 s.
+  Proof.
+    unfold odesugar_narsese, erase. cbn [sn_term sn_budget sn_punct sn_stamp sn_truth]. rewrite odesugar_erase_t.
+    destruct (sn_budget s) as [[nm g]|], (sn_punct s) as [[g1 a]|], (sn_stamp s) as [[g2 x]|], (sn_truth s) as [[g3 nt]|]; reflexivity.
+  Qed.
+
+  (* two inputs that differ only in spacing (equal erasures) mean the same and parse to the same value *)
+  Theorem spacing_irrelevant s s' v :
+    erase s = erase s' -> odesugar_narsese F fread in01 s = Some v ->
+    sent_unamb F fread fzero in01 E unamb s = true -> sent_unamb F fread fzero in01 E unamb s' = true ->
+    (exists st, parse_narsese F fread fzero in01 is_alnum E (render_narsese E s) = POk v st) /\
+    (exists st, parse_narsese F fread fzero in01 is_alnum E (render_narsese E s') = POk v st).
+  Proof.
+    intros He Hv Hu Hu'. split; [now apply parse_narsese_render|]. apply parse_narsese_render; [|exact Hu'].
+    now rewrite <- odesugar_narsese_erase, <- He, odesugar_narsese_erase.
+  Qed.
+
+  (* in particular the input written without any space (what the inline macros parse) *)
+  Theorem spaces_removed s v :
+    odesugar_narsese F fread in01 s = Some v -> sent_unamb F fread fzero in01 E unamb (erase s) = true ->
+    exists st, parse_narsese F fread fzero in01 is_alnum E (render_narsese E (erase s)) = POk v st.
+  Proof. intros Hv Hu. apply parse_narsese_render; [now rewrite odesugar_narsese_erase | exact Hu]. Qed.
+
+  (* ---------------- C15: the kind of the result is decided by the items written ---------------- *)
+  Theorem kind_by_items s v : odesugar_narsese F fread in01 s = Some v ->
+    nv_is_task v = has (sn_budget s) && has (sn_punct s) /\
+    nv_is_sentence v = negb (has (sn_budget s)) && has (sn_punct s) /\
+    nv_is_term v = negb (has (sn_punct s)).
+  Proof.
+    unfold odesugar_narsese. destruct (odesugar (sn_term s)) as [t|]; [|discriminate].
+    destruct (opt_read (sn_budget s) _) as [ob|] eqn:Hob; [|discriminate].
+    destruct (opt_read (sn_punct s) _) as [op|] eqn:Hop; [|discriminate].
+    destruct (opt_read (sn_stamp s) _) as [os|]; [|discriminate].
+    destruct (opt_read (sn_truth s) _) as [ot|]; [|discriminate].
+    intros H; injection H as <-.
+    apply opt_read_spec in Hob, Hop.
+    destruct (sn_budget s) as [b|]; [destruct Hob as (bv & _ & ->) | subst ob];
+      (destruct (sn_punct s) as [p|]; [destruct Hop as (pv & _ & ->) | subst op]); cbn; auto.
+  Qed.
+
+  Theorem parse_kind s v :
+    odesugar_narsese F fread in01 s = Some v -> sent_unamb F fread fzero in01 E unamb s = true ->
+    exists st, parse_narsese F fread fzero in01 is_alnum E (render_narsese E s) = POk v st /\
+      nv_is_task v = has (sn_budget s) && has (sn_punct s) /\
+      nv_is_sentence v = negb (has (sn_budget s)) && has (sn_punct s) /\
+      nv_is_term v = negb (has (sn_punct s)).
+  Proof.
+    intros Hv Hu. destruct (parse_narsese_render s v Hv Hu) as (st & Hp). exists st. split; [exact Hp | now apply kind_by_items].
+  Qed.
 End Sent.
+
+(* ---------------- the formatter prints a canonical surface input ---------------- *)
+Section CanonP.
+  Variable F : Type.
+  Variable fshow : F -> str.
+  Variable E : efmt.
+  Variables kt ki : nat.
+  Hypothesis Hft : fmt_tables_ok E kt ki = true.
+
+  Lemma spunct_eqb_eq a b : spunct_eqb a b = true -> a = b.
+  Proof. destruct a, b; cbn; congruence. Qed.
+  Lemma sarm_eqb_eq a b : sarm_eqb a b = true -> a = b.
+  Proof. destruct a, b; cbn; congruence. Qed.
+
+  Lemma ft_parts :
+    space_format_terms E = sp E kt /\ space_format_items E = sp E ki /\ sentence_truth_brackets_0 E <> [] /\
+    (forall p, punct_kw E (punct_index p) = fmt_punct E p /\ fmt_punct E p <> [] /\ opunct (punct_index p) = Some p) /\
+    (forall k, stamp_kind (stamp_index k) = Some k /\ stamp_marker E (stamp_index k) = stamp_fmt_kw E k /\ stamp_fmt_kw E k <> []).
+  Proof.
+    pose proof Hft as H0. unfold fmt_tables_ok in H0. cbn [forallb] in H0. rewrite !andb_true_iff in H0. rewrite !str_eqb_eq in H0.
+    repeat match goal with H : _ /\ _ |- _ => destruct H end.
+    split; [assumption|]. split; [assumption|]. split; [now apply nonempty_ne|]. split.
+    - intros p. assert (Hx : forall i, match opunct i with Some q => spunct_eqb q p | None => false end = true -> opunct i = Some p).
+      { intros i Hi. destruct (opunct i) as [q|]; [|discriminate]. now rewrite (spunct_eqb_eq _ _ Hi). }
+      destruct p; (split; [assumption | split; [now apply nonempty_ne | now apply Hx]]).
+    - intros k. assert (Hx : forall i, match stamp_kind i with Some q => sarm_eqb q k | None => false end = true -> stamp_kind i = Some k).
+      { intros i Hi. destruct (stamp_kind i) as [q|]; [|discriminate]. now rewrite (sarm_eqb_eq _ _ Hi). }
+      destruct k; (split; [now apply Hx | split; [assumption | now apply nonempty_ne]]).
+  Qed.
+
+  Lemma rnf_true sep l : forall i,
+    render_nums_from E sep (fun _ => (O, O)) true i l = concat (map (fun y => sep ++ y) l).
+  Proof.
+    induction l as [|x l IH]; intros i; cbn [render_nums_from map concat]; [reflexivity|].
+    unfold ngap. cbn [fst snd Sst.sp rep app]. now rewrite app_nil_r, IH, <- app_assoc.
+  Qed.
+  Lemma join_with_concat sep l : forall x, join_with sep (x :: l) = x ++ concat (map (fun y => sep ++ y) l).
+  Proof.
+    induction l as [|a l IH]; intros x; [cbn; now rewrite app_nil_r|].
+    change (join_with sep (x :: a :: l)) with (x ++ sep ++ join_with sep (a :: l)).
+    rewrite IH. cbn [map concat]. now rewrite <- app_assoc.
+  Qed.
+
+  Lemma fmt_floats_render lb sep rb fs :
+    fmt_floats F fshow lb sep rb fs = render_nums E lb sep rb (canon_nums F fshow fs).
+  Proof.
+    unfold fmt_floats, render_nums, canon_nums. cbn [nl_sp0 nl_gaps nl_texts nl_sp1 Sst.sp rep app].
+    destruct fs as [|x fs]; [reflexivity|]. cbn [map render_nums_from app]. now rewrite join_with_concat, rnf_true.
+  Qed.
+
+  Lemma fmt_budget_render b : fmt_budget F fshow E b = render_budget E (canon_nums F fshow (budget_list b)).
+  Proof. apply fmt_floats_render. Qed.
+
+  (* one element of join_lest after the first: nothing when empty, else separator ++ element *)
+  Definition jl (y : str) : str := match y with [] => [] | _ => space_format_terms E ++ y end.
+
+  Lemma jl_stamp x k : jl (fmt_stamp E x) ++ k = ropt E (canon_stamp kt x) (render_stamp E) k.
+  Proof.
+    destruct ft_parts as (Hkt & _ & _ & _ & Hst).
+    assert (Hne : forall a b c : str, b <> [] -> jl (a ++ b ++ c) = sp E kt ++ a ++ b ++ c).
+    { intros a b c Hb. unfold jl. rewrite Hkt. destruct (a ++ b ++ c) eqn:Habc; [|reflexivity].
+      apply app_eq_nil in Habc as [_ Habc]. apply app_eq_nil in Habc as [Habc _]. congruence. }
+    destruct x as [| | | |z]; cbn [fmt_stamp canon_stamp ropt].
+    - reflexivity.
+    - destruct (Hst SAPast) as (Hk & Hm & Hn). cbn [stamp_fmt_kw] in Hm, Hn. rewrite Hne by exact Hn.
+      unfold render_stamp. cbn [ss_arm ss_sp0 ss_sp1 ss_int ss_sp2 Sst.sp rep app]. rewrite Hk, Hm. cbn [app]. now rewrite <- !app_assoc.
+    - destruct (Hst SAPresent) as (Hk & Hm & Hn). cbn [stamp_fmt_kw] in Hm, Hn. rewrite Hne by exact Hn.
+      unfold render_stamp. cbn [ss_arm ss_sp0 ss_sp1 ss_int ss_sp2 Sst.sp rep app]. rewrite Hk, Hm. cbn [app]. now rewrite <- !app_assoc.
+    - destruct (Hst SAFuture) as (Hk & Hm & Hn). cbn [stamp_fmt_kw] in Hm, Hn. rewrite Hne by exact Hn.
+      unfold render_stamp. cbn [ss_arm ss_sp0 ss_sp1 ss_int ss_sp2 Sst.sp rep app]. rewrite Hk, Hm. cbn [app]. now rewrite <- !app_assoc.
+    - destruct (Hst SAFixed) as (Hk & Hm & Hn). cbn [stamp_fmt_kw] in Hm, Hn.
+      rewrite (Hne _ _ (show_Z z ++ sentence_stamp_brackets_1 E) Hn).
+      unfold render_stamp. cbn [ss_arm ss_sp0 ss_sp1 ss_int ss_sp2 Sst.sp rep app]. rewrite Hk, Hm. cbn [app]. now rewrite <- !app_assoc.
+  Qed.
+
+  Lemma jl_truth o k :
+    jl (fmt_truth F fshow E (match o with Some t => t | None => TruthEmpty end)) ++ k =
+    ropt E (canon_truth F fshow kt o) (render_truth E) k.
+  Proof.
+    destruct ft_parts as (Hkt & _ & Ht0 & _).
+    assert (Hne : forall fs,
+              jl (fmt_floats F fshow (sentence_truth_brackets_0 E) (sentence_truth_separator E) (sentence_truth_brackets_1 E) fs) ++ k =
+              sp E kt ++ render_truth E (canon_nums F fshow fs) ++ k).
+    { intros fs. unfold jl, render_truth. rewrite <- fmt_floats_render, Hkt. unfold fmt_floats at 1.
+      destruct (sentence_truth_brackets_0 E) as [|c r]; [congruence|]. cbn [app]. now rewrite <- app_assoc. }
+    destruct o as [[|f|f c]|]; cbn [fmt_truth canon_truth ropt truth_list]; try reflexivity; apply Hne.
+  Qed.
+
+  Lemma fmt_sentence_canon bud st s : fmt_term E (s_term s) = render E st ->
+    fmt_sentence F fshow E s = from_term E (canon_sentence F fshow kt bud st s).
+  Proof.
+    intros Ht. destruct ft_parts as (_ & _ & _ & Hp & _). destruct (Hp (s_punct s)) as (Hkw & _ & _).
+    unfold fmt_sentence, from_term, join_lest. rewrite Ht. cbn [map concat]. f_equal.
+    unfold tail0, tail1, tail2, tail3. cbn [canon_sentence sn_term sn_punct sn_stamp sn_truth sn_trail ropt Sst.sp rep app].
+    rewrite Hkw. f_equal. fold (jl (fmt_stamp E (s_stamp s))).
+    fold (jl (fmt_truth F fshow E (match s_truth s with Some t => t | None => TruthEmpty end))).
+    now rewrite <- jl_stamp, <- jl_truth.
+  Qed.
+
+  Theorem fmt_narsese_canon st v :
+    fmt_term E (match v with NTerm t => t | NSentence s => s_term s | NTask k => s_term (fst k) end) = render E st ->
+    fmt_narsese F fshow E v = render_narsese E (canon_narsese F fshow kt ki st v).
+  Proof.
+    destruct ft_parts as (_ & Hki & _ & Hp & _).
+    destruct v as [t|s|[s b]]; cbn [fmt_narsese canon_narsese fst]; intros Ht.
+    - unfold render_narsese, from_term, tail0, tail1, tail2, tail3. cbn. now rewrite app_nil_r.
+    - unfold render_narsese. cbn [canon_sentence sn_lead sn_budget Sst.sp rep app]. now apply fmt_sentence_canon.
+    - unfold render_narsese, fmt_task. cbn [canon_sentence sn_lead sn_budget Sst.sp rep app snd fst].
+      rewrite (fmt_sentence_canon (Some (canon_nums F fshow (budget_list b), ki)) st s Ht), fmt_budget_render, Hki.
+      destruct (from_term E _) eqn:Hf; [|reflexivity].
+      exfalso. unfold from_term, tail0 in Hf. cbn [canon_sentence sn_term sn_punct ropt Sst.sp rep app] in Hf.
+      apply app_eq_nil in Hf as [_ Hf]. apply app_eq_nil in Hf as [Hf _].
+      destruct (Hp (s_punct s)) as (Hkw & Hne & _). congruence.
+  Qed.
+End CanonP.
+(*MARK*)
